@@ -189,6 +189,36 @@ def _small_fmtstrs():
 
 
 shared_atts.enumerate_small = _small_fmtstrs
+shared_atts.fresh_result = True       # a dict handed to the caller: must not be retained by the value (obligation result_not_retained)
+
+
+def edit_reported(f):
+    """what a caller may do with the reported dict; -> True if the edit went through (the result is a mutable dict)"""
+    r = f.shared_atts
+    try:
+        r["bg"] = 42
+        r["bold"] = True
+        r["fg"] = 36
+        return True
+    except Exception:       # noqa: BLE001  (an immutable mapping: nothing to check)
+        return False
+
+
+def _shared_probe():
+    from curtsies.formatstring import FmtStr, Chunk
+    from pyvc.verify import check_concrete, describe
+    for f in (FmtStr(Chunk("s", {"fg": 31})), FmtStr(Chunk("a", {"fg": 31}), Chunk("b", {"fg": 31, "underline": True})), FmtStr(Chunk("q"))):
+        first = dict(f.shared_atts)
+        if not edit_reported(f):
+            continue
+        ok, clause, detail = check_concrete(shared_atts, dict(self=f))
+        if not ok:
+            yield (clause, dict(self=describe(f), history="atts = f.shared_atts; atts['bg'] = 42; atts['bold'] = True; atts['fg'] = 36; f.shared_atts"),
+                   f"{detail} (first answer {first}, after the caller edited the dict it was handed: {dict(f.shared_atts)})",
+                   {"kind": "probe", "contract": shared_atts.key})
+
+
+shared_atts.probe = _shared_probe
 
 
 # ------------------------------------------------------------------ copy_with_new_str                              C14
